@@ -592,7 +592,7 @@ fn check_grammar(g: &GrammarCase, checks: &[String], out: &mut Out, stats: &mut 
     let mk = |check: &str, what: &str| json!({"kind":"mismatch","check":check,"repr":"Value","id":g.id,"q":q,"sentence_kind":g.kind,
                                               "verdict":g.verdict,"what":what});
     let parsed = guarded(|| parse_json_path(&q).map(|_| ()).map_err(|e| e.to_string()));
-    if g.verdict == "valid" && (has("accept") || has("order")) {
+    if g.verdict == "valid" && (has("accept") || has("order") || has("nodes")) {
         *stats.entry("accept".into()).or_default() += 1;
         match &parsed {
             Err(p) => { let mut m = mk("accept", "panic while parsing a valid query"); m["detail"] = json!(p); out.mismatch(m); }
@@ -623,12 +623,13 @@ fn check_grammar(g: &GrammarCase, checks: &[String], out: &mut Out, stats: &mut 
             }
         }
     }
-    if g.verdict == "valid" && has("order") {
+    if g.verdict == "valid" && (has("order") || has("nodes")) {
+        let which = if has("order") { "order" } else { "nodes" };
         for (n, d) in g.docs.iter().enumerate() {
             let case = EvalCase { id: json!([g.id, n]), q: g.q.clone(), doc: d.doc.clone(), expect: d.expect.clone(), sm: d.sm.clone(), paths: vec![], ast: None };
             let doc = case.doc.to_value();
             let docj = case.doc.to_j().to_value();
-            check_eval(&case, &doc, &docj, "Value", &["order".to_string()], out, stats);
+            check_eval(&case, &doc, &docj, "Value", &[which.to_string()], out, stats);
         }
     }
 }
